@@ -561,3 +561,62 @@ def ring_cursor_uses(fn, consumers, consumer_arg):
                     break
             out.append((a_, c, bad))
     return out
+
+
+# calls that may rewrite the on-disk inode whose number they are given: {callee: index of the inode-number argument}
+INODE_REWRITERS = {"ext2fs_block_iterate": 1, "ext2fs_block_iterate2": 1, "ext2fs_block_iterate3": 1,
+                   "ext2fs_link": 1, "ext2fs_unlink": 1, "ext2fs_expand_dir": 1, "ext2fs_mkdir": 1, "ext2fs_symlink": 1,
+                   "ext2fs_inline_data_set": 1, "ext2fs_inline_data_expand": 1, "ext2fs_inline_data_init": 1}
+INODE_READERS = {"ext2fs_read_inode": (1, 2), "ext2fs_read_inode_full": (1, 2), "ext2fs_read_inode2": (1, 2),
+                 "ext2fs_get_next_inode": (1, 2), "ext2fs_get_next_inode_full": (1, 2),
+                 "e2fsck_read_inode": (1, 2), "e2fsck_read_inode_full": (1, 2), "debugfs_read_inode": (0, 1),
+                 "debugfs_read_inode2": (0, 1)}
+INODE_WRITERS = {"ext2fs_write_inode": (1, 2), "ext2fs_write_inode_full": (1, 2), "ext2fs_write_inode2": (1, 2),
+                 "ext2fs_write_new_inode": (1, 2), "e2fsck_write_inode": (1, 2), "e2fsck_write_inode_full": (1, 2),
+                 "debugfs_write_inode": (0, 1), "debugfs_write_inode2": (0, 1), "debugfs_write_new_inode": (0, 1)}
+
+
+def _bufname(e):
+    e = T.strip(e)
+    while isinstance(e, dict) and ((e.get("k") == "u" and e.get("o") == "&") or e.get("k") == "cast"):
+        e = T.strip(e.get("e"))
+    return T.path(e)
+
+
+def stale_inode_writes(fn):
+    """An in-memory inode that is written back after a call that rewrites the same on-disk inode itself (a block walk
+    that relocates blocks, a link into the directory, an expansion) must have been read again in between, or the
+    callee's update is undone.  -> [(rewriter call, write call, stale?)] for every pair on the same inode expression"""
+    out = []
+    rew = []
+    for n in fn.call_nodes():
+        for cn in T.call_names(n.ev["x"]):
+            if cn in INODE_REWRITERS:
+                if cn.startswith("ext2fs_block_iterate") and "BLOCK_FLAG_READ_ONLY" in T.macros(arg(n, 2) or {}):
+                    continue
+                ip = T.path(arg(n, INODE_REWRITERS[cn]))
+                if ip:
+                    rew.append((n, ip, {_bufname(a) for a in n.ev["x"].get("a", [])} - {None}))
+    if not rew:
+        return out
+    reads, writes = [], []
+    for n in fn.call_nodes():
+        for cn in T.call_names(n.ev["x"]):
+            if cn in INODE_READERS:
+                ii, bi = INODE_READERS[cn]
+                reads.append((n, _bufname(arg(n, bi))))
+            if cn in INODE_WRITERS:
+                ii, bi = INODE_WRITERS[cn]
+                writes.append((n, T.path(arg(n, ii)), _bufname(arg(n, bi))))
+    wipes = [(n, _bufname(arg(n, 0))) for n in calls_to(fn, "memset")]
+    for (m, ip, given) in rew:
+        for (w_, wip, wb) in writes:
+            if wip != ip or not wb:
+                continue
+            if wb in given:
+                continue        # the callee was handed this very copy and keeps it current
+            # a fresh image: read from disk again, or wiped to build a new inode (the next file of a loop)
+            fresh = [r for (r, rb) in reads + wipes if rb == wb]
+            r = fn.reach(fn.after(m), avoid=fresh)
+            out.append((m, w_, w_ in r))
+    return out
